@@ -416,5 +416,52 @@ def r11_9(ctx):
     return r
 
 
+def r11_10(ctx):
+    """duplication of the HelloVerifyRequest datagram. After answering an HVR the client accepts ONE message whose
+    message_seq is below the expected one as the server's restarted first flight and re-synchronises its counter
+    to it. A HelloVerifyRequest below the expected sequence is not that restart: it is a copy of the request
+    already answered. Re-synchronising to it re-runs the HVR handler - a second cookie ClientHello with a new
+    message_seq, transcript cleared - while the server continues from the first one: the Finished hashes differ
+    and the handshake fails (reproduced against the reference DTLS server). So: the resynchronising store in the
+    duplicate branch must be cut by an edge that excludes msg_type == HelloVerifyRequest."""
+    r = RuleResult("R11.10", "K1", "a duplicated HelloVerifyRequest is not taken for the server's restarted flight")
+    b = ctx.body(D + "process_handshake_payload::{closure#0}")
+    r.scope.append(b.name)
+
+    def is_cmp(term, op):
+        return term[0] == "bin" and term[1] == op and mir.has_field(term[2], "message_seq") and mir.has_field(term[3], "recv_message_seq")
+    lt = core.guard_edges(b, lambda term, meaning, *_: is_cmp(term, "Lt") and meaning is True)
+    gt_blocks = {a for a, t in core.guard_edges(b, lambda term, meaning, *_: is_cmp(term, "Gt"))}
+    if not lt or not gt_blocks:
+        raise core.CheckerError("R11.10: message_seq comparisons not found")
+    region = b.reachable([t for _, t in lt], cut_edges=b.back_edges(), cut_blocks=gt_blocks)
+    syncs = []
+    for bi, si, st in core.field_writes(b, lambda f: f == "recv_message_seq"):
+        if si is None or bi not in region:
+            continue
+        v = b.term_rvalue(st["rv"])
+        if v[0] == "field" and v[2] == "message_seq":
+            syncs.append(bi)
+    if not syncs:
+        r.ok({"duplicate branch": "never re-synchronises recv_message_seq (nothing to guard)"})
+        return r
+
+    def not_hvr(term, meaning, *_):
+        if not (term[0] == "call" and "PartialEq" in term[1] and mir.has_field(term, "msg_type")):
+            return False
+        if not mir.has(term, lambda x: x[0] == "agg" and x[1].endswith("HandshakeType") and x[2] == "HelloVerifyRequest"):
+            return False
+        return meaning is (True if term[1].endswith("::ne") else False)
+    g = core.guard_edges(b, not_hvr)
+    for bi in syncs:
+        if g and core.k1(b, [bi], g)[bi] is None:
+            r.ok({"site": b.where(bi), "cut_by": "msg.msg_type != HelloVerifyRequest"})
+        else:
+            r.violate(b.name, "resync:duplicate-hvr", b.where(bi),
+                      "a message below the expected message_seq re-synchronises recv_message_seq after an HVR whatever its type: "
+                      "a duplicated HelloVerifyRequest is answered a second time and the handshake cannot complete")
+    return r
+
+
 def run(ctx):
-    return [r11_1(ctx), r11_2(ctx), r11_3(ctx), r11_4(ctx), r11_5(ctx), r11_6(ctx), r11_7(ctx), r11_8(ctx), r11_9(ctx)]
+    return [r11_1(ctx), r11_2(ctx), r11_3(ctx), r11_4(ctx), r11_5(ctx), r11_6(ctx), r11_7(ctx), r11_8(ctx), r11_9(ctx), r11_10(ctx)]
